@@ -555,6 +555,33 @@ func c13Menu() []c13op {
 			return dg(x[0], x[1099], y[0][:8], y[1099][:8], frToBig(*res[0]), frToBig(*res[1099]), err)
 		}, none
 	})
+	add("CreateMultiProof + CheckMultiProof of a single opening", func(c *ipa.IPAConfig, seed int64) ([]interface{}, func() string, func() string) {
+		s := stmt{label: "one", zs: []int{9}, polys: []namedPoly{pick(polyAlphabet(seed), 12)}}
+		is := s.build(c)
+		return []interface{}{&is.fs, &is.zs}, func() string {
+			p, err := multiproof.CreateMultiProof(common.NewTranscript("one"), c, is.Cs, is.fs, is.zs)
+			if err != nil {
+				return dg(err)
+			}
+			ok, verr := multiproof.CheckMultiProof(common.NewTranscript("one"), c, p, is.Cs, is.ys, is.zs)
+			return dg(hx(proofBytes(p)), ok, verr)
+		}, none
+	})
+	add("proofs read one after the other into the same variables; value copies of the earlier ones are kept", func(c *ipa.IPAConfig, seed int64) ([]interface{}, func() string, func() string) {
+		h0 := append(make([]byte, 0, 600), honestProofBytes(seed, 0)...)
+		h1 := append(make([]byte, 0, 600), honestProofBytes(seed, 1)...)
+		return []interface{}{&h0, &h1}, func() string {
+			var mp multiproof.MultiProof
+			var ip ipa.IPAProof
+			e1 := mp.Read(bytes.NewBuffer(append([]byte(nil), h0...)))
+			e2 := ip.Read(bytes.NewReader(h0[32:]))
+			k1, k2 := mp, ip
+			e3 := mp.Read(bytes.NewReader(h1))
+			e4 := ip.Read(bytes.NewReader(h1[32:]))
+			e5 := ip.Read(bytes.NewReader(h0[32:300])) // truncated
+			return dg(e1, e2, e3, e4, e5 != nil, hx(proofBytes(&k1)), hx(ipaProofBytes(&k2)), hx(proofBytes(&mp)))
+		}, none
+	})
 	add("fr comparisons and predicates on caller elements (LexicographicallyLargest, Cmp, IsZero, IsUint64, Legendre, Equal), repeated", func(c *ipa.IPAConfig, seed int64) ([]interface{}, func() string, func() string) {
 		xs := slackFr(frsFromBig([]*big.Int{bi(1), bi(2), new(big.Int).Sub(bigR, bi(1)), new(big.Int).Sub(bigR, bi(2)), prfR(seed, "c13", 11), new(big.Int).Rsh(bigR, 1)}))
 		return []interface{}{&xs}, func() string {
